@@ -632,7 +632,7 @@ Definition plr_shuffle (nop nov noc : bool) (n : Z) (F : cnf) (o : list Z) : plr
   | PdOk rs o' =>
     let '(fl, pm, cp) := shm_args nop nov noc n (len F) rs in
     match shuffle n F fl pm cp with
-    | ShOk n' out => PdOk (FrOk n' out) o'
+    | ShOk n' out => PdOk (plr_checked n' out) o'
     | _ => PdOk FrErr o'
     end
   | PdEnd q => PdEnd q
